@@ -331,3 +331,82 @@ func propRaceCache(t *rapid.T) {
 }
 
 func TestRaceCache(t *testing.T) { rapid.Check(t, propRaceCache) }
+
+// propRaceCopy: Context.Copy() is what a handler hands to a goroutine.  The goroutine works with its copy (reads
+// values, parameters, errors; records its own result) while the handler goes on with the original (sets values, adds
+// errors, changes parameters) and while later requests reuse the pooled context.  Nothing here is shared by the
+// application itself, so every race report is about rux's own state.  Oracle: the race detector stays silent, and
+// each copy holds at the end what it held when it was taken plus what its own goroutine wrote.
+func propRaceCopy(t *rapid.T) {
+	ev.Case()
+	r := rux.New()
+	if rapid.Bool().Draw(t, "caching") {
+		r = rux.New(rux.CachingWithNum(2))
+	}
+	rounds := rapid.IntRange(20, ev.Pick(80, 400)).Draw(t, "rounds")
+	ng := rapid.IntRange(1, 4).Draw(t, "clients")
+	if f := os.Getenv("VERIF_CASEFILE"); f != "" {
+		b, _ := json.Marshal(map[string]any{"test": "TestRaceCopy", "clients": ng, "rounds": rounds,
+			"rapid_seed": os.Getenv("VERIF_RAPID_SEED"), "rapid_checks": os.Getenv("VERIF_RAPID_CHECKS")})
+		_ = os.WriteFile(f, b, 0o644)
+	}
+	var jobs sync.WaitGroup
+	bad := make(chan string, 64)
+	r.GET("/job/{id}", func(c *rux.Context) {
+		id := c.Param("id")
+		c.Set("owner", id)
+		c.AddError(fmt.Errorf("warning of %s", id))
+		cp := c.Copy()
+		jobs.Add(1)
+		go func() {
+			defer jobs.Done()
+			for i := 0; i < 3; i++ {
+				if v, _ := cp.Get("owner"); v != id || cp.Param("id") != id || len(cp.Errors) < 1 || cp.Errors[0].Error() != "warning of "+id {
+					select {
+					case bad <- fmt.Sprintf("copy of job %s holds owner=%v id=%q errors=%v", id, v, cp.Param("id"), cp.Errors):
+					default:
+					}
+					return
+				}
+				cp.Set("progress", i)
+				cp.AddError(fmt.Errorf("job %s step %d", id, i))
+				_ = cp.Data()
+			}
+		}()
+		// the handler goes on with its own context
+		c.Set("later", id)
+		c.AddError(fmt.Errorf("late warning of %s", id))
+		c.Params["extra"] = id
+		c.WriteString("started " + id)
+	})
+	var wg sync.WaitGroup
+	for g := 0; g < ng; g++ {
+		wg.Add(1)
+		go func(g int) {
+			defer wg.Done()
+			for k := 0; k < rounds; k++ {
+				id := fmt.Sprintf("c%dk%d", g, k)
+				rec := httptest.NewRecorder()
+				r.ServeHTTP(rec, &http.Request{Method: "GET", URL: &url.URL{Path: "/job/" + id}, Header: http.Header{}})
+				if rec.Body.String() != "started "+id {
+					select {
+					case bad <- fmt.Sprintf("GET /job/%s answered %q", id, rec.Body.String()):
+					default:
+					}
+				}
+			}
+		}(g)
+	}
+	wg.Wait()
+	jobs.Wait()
+	ev.Eval()
+	ev.ClassN("copies-handed-to-goroutines", ng*rounds)
+	select {
+	case msg := <-bad:
+		t.Fatalf("%s", msg)
+	default:
+	}
+	ev.NonTrivial(fmt.Sprint("copy", ng, rounds), func() string { return fmt.Sprintf("%d clients x %d requests, each hands a copy to a goroutine", ng, rounds) })
+}
+
+func TestRaceCopy(t *testing.T) { rapid.Check(t, propRaceCopy) }
